@@ -26,6 +26,7 @@ import (
 	"bufio"
 	"encoding/hex"
 	"fmt"
+	"hash/fnv"
 	"math"
 	"os"
 	"reflect"
@@ -315,6 +316,7 @@ var tmpDir string
 
 // the bytes of the three files are part of the answer when together they are at most this long
 const maxFileBytes = 24 << 10
+
 var caseNo int
 
 func runCase(c fcase) string {
@@ -323,9 +325,18 @@ func runCase(c fcase) string {
 	defer func() {
 		for _, e := range []string{".shp", ".shx", ".dbf"} {
 			os.Remove(base + e)
+			os.Remove(base + "c" + e)
 		}
 	}()
 	var b strings.Builder
+	// Companion objects (a third of the cases, decided by the input line so that a replay does the same): a SECOND
+	// Encoder on a file of its own, created after the main encoder's first record and fed every other record in
+	// between the main calls, and a SECOND Decoder on the main file, opened after the main decoder's first call and
+	// advanced in between the main calls. Encoders and Decoders are independent objects: the main file and the main
+	// results must be exactly what they are without the companions (the judge knows nothing about them).
+	hl := fnv.New32a()
+	hl.Write([]byte(c.line()))
+	companion := hl.Sum32()%3 == 0
 
 	// ---- write
 	var enc *gshp.Encoder
@@ -333,79 +344,102 @@ func runCase(c fcase) string {
 	var wt reflect.Type
 	if c.w.path == 'S' {
 		wt = structType(c.w.sf)
-		if pan := vproto.Safe(func() { enc, err = gshp.NewEncoder(base+".shp", reflect.Zero(wt).Interface()) }); pan != "" {
-			return "newenc-panic:" + pan
+	}
+	newEnc := func(path string) (en *gshp.Encoder, err error, pan string) {
+		if c.w.path == 'S' {
+			pan = vproto.Safe(func() { en, err = gshp.NewEncoder(path, reflect.Zero(wt).Interface()) })
+			return
 		}
-	} else {
 		fields := make([]shp.Field, len(c.w.ff))
 		for i, f := range c.w.ff {
 			fields[i] = shp.Field{Fieldtype: f.typ, Size: uint8(f.size), Precision: uint8(f.prec)}
 			copy(fields[i].Name[:], []byte(f.name))
 		}
-		if pan := vproto.Safe(func() { enc, err = gshp.NewEncoderFromFields(base+".shp", shp.ShapeType(c.w.shpTyp), fields...) }); pan != "" {
+		pan = vproto.Safe(func() { en, err = gshp.NewEncoderFromFields(path, shp.ShapeType(c.w.shpTyp), fields...) })
+		return
+	}
+	{
+		var pan string
+		if enc, err, pan = newEnc(base + ".shp"); pan != "" {
 			return "newenc-panic:" + pan
 		}
 	}
 	if err != nil {
 		return "newenc-err"
 	}
+	var enc2 *gshp.Encoder // the companion encoder
 	b.WriteString("W")
 	for ri, r := range c.recs {
 		var e error
 		var pan string
-		if c.w.path == 'S' {
-			v := reflect.New(wt).Elem()
-			ai := 0
-			for i, f := range c.w.sf {
-				if isGeomKind(f.kind) {
-					if r.g != nil {
-						v.Field(i).Set(reflect.ValueOf(r.g))
-					}
-					continue
-				}
-				if ai >= len(r.vals) {
-					continue
-				}
-				x := r.vals[ai]
-				ai++
-				switch f.kind {
-				case "i":
-					v.Field(i).SetInt(int64(x.i))
-				case "f":
-					v.Field(i).SetFloat(x.f)
-				case "s":
-					v.Field(i).SetString(x.s)
-				}
-			}
-			if len(c.w.wsched) > 0 && c.w.wsched[ri%len(c.w.wsched)] == 'F' {
-				// the same record through EncodeFields on the SAME encoder: geometry value of the struct field,
-				// attribute values in column order
-				var gv geom.Geom
-				var vals []interface{}
+		ri, r := ri, r
+		writeTo := func(enc *gshp.Encoder) (e error, pan string) {
+			if c.w.path == 'S' {
+				v := reflect.New(wt).Elem()
+				ai := 0
 				for i, f := range c.w.sf {
 					if isGeomKind(f.kind) {
-						gv, _ = v.Field(i).Interface().(geom.Geom)
-					} else {
-						vals = append(vals, v.Field(i).Interface())
+						if r.g != nil {
+							v.Field(i).Set(reflect.ValueOf(r.g))
+						}
+						continue
+					}
+					if ai >= len(r.vals) {
+						continue
+					}
+					x := r.vals[ai]
+					ai++
+					switch f.kind {
+					case "i":
+						v.Field(i).SetInt(int64(x.i))
+					case "f":
+						v.Field(i).SetFloat(x.f)
+					case "s":
+						v.Field(i).SetString(x.s)
 					}
 				}
-				pan = vproto.Safe(func() { e = enc.EncodeFields(gv, vals...) })
+				if len(c.w.wsched) > 0 && c.w.wsched[ri%len(c.w.wsched)] == 'F' {
+					// the same record through EncodeFields on the SAME encoder: geometry value of the struct field,
+					// attribute values in column order
+					var gv geom.Geom
+					var vals []interface{}
+					for i, f := range c.w.sf {
+						if isGeomKind(f.kind) {
+							gv, _ = v.Field(i).Interface().(geom.Geom)
+						} else {
+							vals = append(vals, v.Field(i).Interface())
+						}
+					}
+					pan = vproto.Safe(func() { e = enc.EncodeFields(gv, vals...) })
+				} else {
+					pan = vproto.Safe(func() { e = enc.Encode(v.Interface()) })
+				}
 			} else {
-				pan = vproto.Safe(func() { e = enc.Encode(v.Interface()) })
+				vals := make([]interface{}, len(r.vals))
+				for i, x := range r.vals {
+					switch x.k {
+					case 'i':
+						vals[i] = x.i
+					case 'f':
+						vals[i] = x.f
+					default:
+						vals[i] = x.s
+					}
+				}
+				pan = vproto.Safe(func() { e = enc.EncodeFields(r.g, vals...) })
 			}
-		} else {
-			vals := make([]interface{}, len(r.vals))
-			for i, x := range r.vals {
-				switch x.k {
-				case 'i':
-					vals[i] = x.i
-				case 'f':
-					vals[i] = x.f
-				default:
-					vals[i] = x.s
+			return
+		}
+		e, pan = writeTo(enc)
+		if companion {
+			if enc2 == nil {
+				if en, err2, pan2 := newEnc(base + "c.shp"); pan2 == "" && err2 == nil {
+					enc2 = en
 				}
 			}
-			pan = vproto.Safe(func() { e = enc.EncodeFields(r.g, vals...) })
+			if enc2 != nil && ri%2 == 0 {
+				writeTo(enc2)
+			}
 		}
 		switch {
 		case pan != "":
@@ -415,6 +449,9 @@ func runCase(c fcase) string {
 		default:
 			b.WriteString(" ok")
 		}
+	}
+	if enc2 != nil {
+		vproto.Safe(func() { enc2.Close() })
 	}
 	enc.Close()
 	// the bytes of the three files as go-shp left them (compared with the byte-layout model by the judge)
@@ -469,9 +506,25 @@ func runCase(c fcase) string {
 		}
 	}
 	panicRow := func() string { return "PANIC" }
+	var dec2 *gshp.Decoder // the companion decoder on the same file
+	defer func() {
+		if dec2 != nil {
+			vproto.Safe(func() { dec2.Close() })
+		}
+	}()
 	// one Decoder for the whole file; record i is read with call i mod len(calls)
 	for i := 0; len(rows) < limit && len(calls) > 0; i++ {
 		cl := calls[i%len(calls)]
+		if companion && i >= 1 {
+			if dec2 == nil {
+				if d2, err2 := gshp.NewDecoder(base + ".shp"); err2 == nil {
+					dec2 = d2
+				}
+			}
+			if dec2 != nil && i%2 == 1 {
+				vproto.Safe(func() { dec2.DecodeRowFields() })
+			}
+		}
 		if cl.path == 'S' {
 			p := vars[i%len(calls)]
 			if !cl.reuse {
